@@ -37,10 +37,9 @@ def run_lemmas(prop, tier):
                     vs.add(h)
                 if vs.check() == z3.unsat:
                     raise RuntimeError("vacuous lemma: hypotheses are contradictory")
-                q = solve.build_query(ob, [])
-                r = solve.solve_one((name, q, 20000 if tier == "quick" else 120000, True))
+                r = solve.decide(ob, [], 20000 if tier == "quick" else 120000, True)
                 out.append({"name": name, "kind": "lemma", "props": [prop], "clause": text, "status": r[1], "backend": r[2],
-                            "seconds": r[3], "model": r[4], "tried": r[5], "func": "lemma", "smt2": q[0][:20000]})
+                            "seconds": r[3], "model": r[4], "tried": r[5], "func": "lemma", "smt2": r[6][:20000]})
             except Exception as e:
                 out.append({"name": name, "kind": "lemma", "props": [prop], "clause": text, "status": "error", "backend": "-",
                             "seconds": time.time() - t0, "error": str(e), "func": "lemma"})
